@@ -222,31 +222,33 @@ def r3_maximal_munch(ctx):
 
 # ---------------------------------------------------------------- R4
 def dispatch_table(ctx):
-    """Decision table of one scan step of Tokens.operate over (token is one of the step's operators, step type):
-    the action taken on the iteration paths consistent with each cell.  -> {'UNARY': 'operate_unary', ...,
-    'default': [...actions for a token that is not an operator of the step...]}"""
+    """Decision table of one scan step of Tokens.operate over (token is one of the step's operators, step type).
+    The step type is bound to each Otype member in turn and the function is partially evaluated (literal dispatch
+    dicts, comparisons of enum members, getattr with a literal name fold away); the remaining test is the isinstance
+    test of the scanned token.  -> {'UNARY': 'operate_unary', ..., 'default': [...actions for a non-operator...],
+    'token': <expression the scanned token is taken from>}"""
     from ..flowexpr import consistent, explore
     op = ctx.fn(TOKENS, "Tokens.operate")
     pa = [a.arg for a in op.args.args]
     p_ops, p_type = (pa[1], pa[2]) if len(pa) >= 3 else ("operators", "otype")
-    ex = explore(op)
-    loops = [v for v in ex.iterations.values() if isinstance(v[0], ast.While)]
-    if len(loops) != 1:
-        raise AnalysisError(f"{len(loops)} scan loops in Tokens.operate")
-    lp, start, its = loops[0]
-    tok = "self.right.pop(0)"
     table = {}
-    for is_op in (True, False):
-        for ot in ("UNARY", "BINARY", "ARGS"):
-            def atom(e, _o=is_op, _t=ot):
+    for ot in ("UNARY", "BINARY", "ARGS"):
+        ex = explore(op, env={p_type: ast.parse(f"Otype.{ot}", mode="eval").body})
+        loops = [v for v in ex.iterations.values() if isinstance(v[0], ast.While)]
+        if len(loops) != 1:
+            raise AnalysisError(f"{len(loops)} scan loops in Tokens.operate")
+        lp, start, its = loops[0]
+        toks = sorted({norm(e.resolved) for q in its for e in q.events[start:] if e.kind == "assign"
+                       and norm(e.resolved) in ("self.right.pop(0)", "self.get_right()", "self.right.popleft()")})
+        if len(toks) != 1:
+            raise AnalysisError(f"scan step: scanned token not identified: {toks}")
+        tok = toks[0]
+        table["token"] = tok
+        for is_op in (True, False):
+            def atom(e, _o=is_op):
                 k = norm(e)
                 if k == f"isinstance({tok}, {p_ops})":
                     return _o
-                for x in ("UNARY", "BINARY", "ARGS"):
-                    if k in (f"{p_type} == Otype.{x}", f"Otype.{x} == {p_type}"):
-                        return _t == x
-                    if k in (f"{p_type} != Otype.{x}", f"Otype.{x} != {p_type}"):
-                        return _t != x
                 return None
             ps, unk = consistent(its, atom, start)
             if unk and not ps:
@@ -261,7 +263,7 @@ def dispatch_table(ctx):
                 else:
                     table[ot] = None
             else:
-                table.setdefault("default", set()).add(acts[0])
+                table.setdefault("default", set()).add(tuple(a.replace(tok, "TOKEN") for a in acts[0]))
     table["default"] = sorted(table.get("default", []))
     return table
 
@@ -307,7 +309,7 @@ def r5_scan(ctx):
         return
     lp = loops[0]
     first = lp.body[0]
-    ops = K.list_ops(first)
+    ops = K.list_ops(first, cls=ctx.repo.cls(T, "Tokens"))
     ctx.check(ops == [("right", "front", "pop")] and isinstance(first, ast.Assign), T, "Tokens.operate",
               "scan takes the next token from the front of the right queue", detail=ops,
               expected=[("right", "front", "pop")])
@@ -317,10 +319,10 @@ def r5_scan(ctx):
     except AnalysisError as e:
         ctx.unrecognised(T, "Tokens.operate", "non-matching token is pushed on the left stack", str(e))
     else:
-        ctx.form(d in ([("self.put_left(self.right.pop(0))",)], [("self.left.append(self.right.pop(0))",)]), T, "Tokens.operate",
+        ctx.form(d in ([("self.put_left(TOKEN)",)], [("self.left.append(TOKEN)",)]), T, "Tokens.operate",
                  "non-matching token is pushed on the left stack", detail=d)
     after = [norm(s) for s in fn.body[fn.body.index(lp) + 1:]]
-    ok = after in (["self.right = self.left", "self.left = []"], ["self.right, self.left = (self.left, [])"])
+    ok = after in (["self.right = self.left", "self.left = []"], ["self.right, self.left = (self.left, [])"], ["self.left, self.right = ([], self.left)"])
     ctx.form(ok, T, "Tokens.operate", "pass ends with right <- left, left <- []", detail=after)
     # Expression primitives
     e = {"shift": ["self.left += self.right[:nchar]", "self.right = self.right[nchar:]"],
